@@ -2,6 +2,7 @@
    Statements quantify over EVERY request reader, response writer and handler (Section variables),
    every connection state and every number of loop iterations. *)
 From SV Require Import Base.Bytes Base.IO Model.Conn Spec.ConnSpec Proofs.ConnP Model.Server Proofs.ServerP Proofs.ExchangeP.
+From SV Require Import Base.SrcAst Generated.SourceParams Tie.ServerTie.
 From SV Require Import Generated.SourceParams Tie.ConnTie.
 From SV Require Import Model.Response Model.ConnInst Proofs.ConnInstP.
 
@@ -105,6 +106,18 @@ Proof. intros. apply exchanges_wire_ordered. Qed.
 Theorem c04_only_the_last_exchange_closes :
   forall n k c xs o, exch n k c = xs ++ [o] -> Forall (fun x => oo_res _ _ x = None) xs.
 Proof. intros n k c xs o H. eapply exchanges_only_last_closes. exact H. Qed.
+(* C04.src  handle_http_conn_once and the loop of handle_http_conn (src/http_conn.rs) as TRANSLATED statement by statement ON THIS RUN
+   (props/srcparams.py -> Generated/SourceParams.v: src_once, src_conn_loop), interpreted by Tie/ServerTie.v over the connection
+   machine, IS the function the theorems above are about -- for every reader, writer, handler, connection state
+   and permit history. *)
+Theorem c04_handle_once_is_the_source :
+  forall c, eval_once payload resp read_req resp_code write_out resp_continue fix16 handler small_body_len cache_dir src_once c = once c.
+Proof. intros. apply handle_once_tie. Qed.
+Theorem c04_conn_loop_is_the_source :
+  forall fuel k c log files,
+    eval_loop payload resp read_req resp_code write_out resp_continue fix16 error_response handler small_body_len cache_dir revoked
+              src_once src_conn_loop fuel k c log files = loop fuel k c log files.
+Proof. intros. apply conn_loop_tie. Qed.
 End C04.
 
 (* the code before the repair of D5 ran the handler twice on a direct answer *)
@@ -144,6 +157,9 @@ Proof. exact conn_buf_tie. Qed.
 Theorem c04_translation_complete : src_problems_conn_buf = 0%nat.
 Proof. exact conn_buf_translated. Qed.
 
+Theorem c04_server_translation_complete : src_problems_conn_loop = 0%nat.
+Proof. exact conn_loop_translated. Qed.
+
 Print Assumptions c04_handler_runs.
 Print Assumptions c04_loop_is_exchange_sequence.
 Print Assumptions c04_responses_in_request_order.
@@ -160,3 +176,6 @@ Print Assumptions c04_small_body_exact.
 Print Assumptions c04_double_run_refuted.
 Print Assumptions c04_source_conn_buffer.
 Print Assumptions c04_translation_complete.
+Print Assumptions c04_handle_once_is_the_source.
+Print Assumptions c04_conn_loop_is_the_source.
+Print Assumptions c04_server_translation_complete.
